@@ -192,6 +192,8 @@ GenNext ==
                           IN Len(logs[f].recs) > 0 /\
                              CorruptRecord(f, RandomElement({i \in 1..Len(logs[f].recs) : calls >= 0})))
     \/ (Len(logs) > 0 /\ CorruptDelete(RandomElement({i \in 1..Len(logs) : calls >= 0})))
+    \/ (Len(logs) > 1 /\ LET f == RandomElement({i \in 1..(Len(logs) - 1) : calls >= 0}) IN CorruptSwap(f, f + 1))
+    \/ (Len(logs) > 1 /\ CorruptSwap(1, Len(logs)))
 
 GenSpec == Init /\ [][GenNext]_vars
 
